@@ -33,6 +33,8 @@ pub enum Ev {
   RetRead(Tid, usize, Rid, u32, Cell),
   CallWrite(Tid, usize, Rid, RC, bool),
   RetWrite(Tid, usize, Rid),
+  /// a declared write (`written_to`) returned an error (the stamp failed): no dependency was recorded
+  RetWriteErr(Tid, usize, Rid),
   Tick(Tid, usize),
   // ---- world side
   /// `Resource::read` created reader `serial` seeing `cell`
@@ -60,7 +62,23 @@ thread_local! {
   static TICKS: StdCell<usize> = StdCell::new(0);
   static CRASH_AT: StdCell<Option<usize>> = StdCell::new(None);
   static DEPTH: StdCell<usize> = StdCell::new(0);
+  static NEST: StdCell<usize> = StdCell::new(0);
+  static STAMP_FAILS: StdCell<bool> = StdCell::new(false);
 }
+
+/// Whether a set failure flag also makes the PATH stamp route (used by `written_to` only) fail (C05/C06 group).
+pub fn set_stamp_failures(on: bool) { STAMP_FAILS.with(|s| s.set(on)); }
+
+/// Nesting depth of require/check operations as seen by the recording tracker: bounds recursion that does not pass
+/// through task executions (cyclic validation), so that a missed cycle is a verdict instead of a stack overflow.
+pub fn nest_enter() {
+  let d = NEST.with(|n| { let v = n.get() + 1; n.set(v); v });
+  if d > 4 * (MAX_TASKS + 2) {
+    NEST.with(|n| n.set(0));
+    panic!("{}", RECURSION_MSG);
+  }
+}
+pub fn nest_exit() { NEST.with(|n| n.set(n.get().saturating_sub(1))); }
 
 pub const TASK_PANIC_MSG: &str = "VERIF-TASK-PANIC";
 pub const CRASH_MSG: &str = "VERIF-INJECTED-CRASH";
@@ -74,6 +92,7 @@ pub fn reset_ticks(crash_at: Option<usize>) {
   TICKS.with(|t| t.set(0));
   CRASH_AT.with(|c| c.set(crash_at));
   DEPTH.with(|d| d.set(0));
+  NEST.with(|n| n.set(0));
 }
 pub fn ticks() -> usize { TICKS.with(|t| t.get()) }
 /// A crash point. Panics when the injected crash index is reached.
@@ -167,6 +186,10 @@ impl ResourceChecker<VRes> for RCh {
 
   fn stamp<RS: ResourceState<VRes>>(&self, resource: &VRes, state: &mut RS) -> Result<RStamp, VErr> {
     let w = state.get_or_set_default_mut::<World>();
+    if self.0 == RC::Faulty && w.fail[resource.0 as usize] && STAMP_FAILS.with(|s| s.get()) {
+      // the path route is only used by `written_to`: an injected failure of the stamp at declaration time
+      return Err(VErr(format!("injected failure stamping r{}", resource.0)));
+    }
     let s = self.0.stamp_of(w.cells[resource.0 as usize]);
     log(Ev::RcStamp(self.0, resource.0, s));
     Ok(s)
@@ -263,8 +286,10 @@ impl<C: Context> Env for RealEnv<'_, C> {
         writer.store(value);
         tick(caller);
       }
-      if let Err(e) = self.ctx.written_to(&res, RCh(rc)) {
-        panic!("HARNESS-BUG: Context::written_to returned an error: {}", e);
+      if let Err(_e) = self.ctx.written_to(&res, RCh(rc)) {
+        // the stamp failed (injected): the task carries on without a recorded dependency
+        log(Ev::RetWriteErr(caller, stmt, r));
+        return Ok(());
       }
     } else {
       let result = self.ctx.write(&VRes(r), RCh(rc), |w| {
